@@ -85,6 +85,14 @@ namespace awkward {
 
       while (dst.get() == nullptr  ||  dst.get()->length() < length) {
         ContentPtr piece(nullptr);
+        if (partitionid >= (int64_t)partitions_.size()) {
+          // all of the source has been used up: this can only be an empty
+          // partition at the end
+          ContentPtr last = partitions_.back();
+          dst = last.get()->getitem_range_nowrap(last.get()->length(),
+                                                 last.get()->length());
+          break;
+        }
         ContentPtr src = partitions_[(size_t)partitionid];
         int64_t available = src.get()->length() - index;
         int64_t desired = (dst.get() == nullptr ? length
